@@ -6,10 +6,14 @@ AsyncIOThreadSafeScheduler, with the loop thread and a user thread under the int
   clock to reach the next timer, or for the end of the scenario) and whose ready queue logs every
   append / pop of the handles that belong to the scheduled action.  asyncio's own `_run_once` runs unmodified.
 * events are logged in the vocabulary of the Lean model `Thr2Aio` (`stepL` labels) together with the model
-  action (0 loop thread, 1 user, 2 clock reaches the due time, 3 loop started, 4 loop collects a due timer), so that the observed run can
+  action (0 loop thread, 1 user, 2 clock reaches the due time, 3 loop (re)started, 4 loop collects a due timer, 5 loop stopped), so that the observed run can
   be replayed step for step by the driver (`aio_replay`).
 
-Scenario JSON: {"fl": "plain"|"ts", "kind": "soon"|"rel", "mode": "onLoop"|"foreign"|"notRunning",
+Scenario JSON: {"fl": "plain"|"ts", "kind": "soon"|"rel",
+                "smode": how the action is scheduled: "onLoop" (loop callback) | "foreign" (other thread, loop running) |
+                         "pre" (before the loop is started)   [default: derived from mode],
+                "mode": who disposes: "onLoop" | "foreign" (other thread while the loop runs) | "notRunning" (the loop
+                        never started yet, or — smode != pre — was stopped after running; restarted after the return),
                 "delay": ticks, "gap": ticks the user waits between schedule and dispose,
                 "first": thread, "pre": [[step, to], ...]}
 """
@@ -95,7 +99,7 @@ class SteppableLoop(asyncio.SelectorEventLoop):
             return min(live) if live else None
 
         def wake():
-            if len(self._ready):
+            if len(self._ready) or (rs["stop_req"] and not rs["stopped"]):
                 return True
             w = nxt()
             if w is None:
@@ -228,12 +232,14 @@ def run_case(case, wall=8.0, max_steps=4000):
     from reactivex.scheduler.eventloop import AsyncIOScheduler, AsyncIOThreadSafeScheduler
 
     fl, kind, mode = case["fl"], case["kind"], case["mode"]
+    smode = case.get("smode") or {"onLoop": "onLoop", "foreign": "foreign", "notRunning": "pre"}[mode]
     delay = int(case.get("delay", 2))
     gap = int(case.get("gap", 0))
     ctl = tc.Controller(TARGETS, first=case.get("first", 0), pre=case.get("pre", ()), wall=wall,
                         max_steps=max_steps, auto_clock=True)
     run = {"ts_rel": fl == "ts" and kind == "rel", "user_done": False, "cur_cb": None, "user_call_on_loop": False,
-           "when": None, "returned": False, "starts": [], "disp": None, "loop_thread": None, "late": False}
+           "when": None, "returned": False, "starts": [], "disp": None, "loop_thread": None, "late": False,
+           "scheduled": False, "stop_req": False, "stopped": False}
     restore = None
     loop = None
     import logging
@@ -257,6 +263,7 @@ def run_case(case, wall=8.0, max_steps=4000):
                     run["disp"] = sched.schedule(action)
                 else:
                     run["disp"] = sched.schedule_relative(float(delay), action)
+                run["scheduled"] = True
 
             def do_disp():
                 run["disp"].dispose()
@@ -267,56 +274,72 @@ def run_case(case, wall=8.0, max_steps=4000):
             def sleep_until(t):
                 ctl.wait_until(lambda: ctl.clock >= t, wake_at=t)
 
+            def set_running(on):
+                loop._thread_id = threading.get_ident() if on else None
+                events._set_running_loop(loop if on else None)
+
             def loop_body():
-                if mode == "notRunning":
-                    ctl.wait_until(lambda: run["returned"])
+                if smode == "pre":
+                    # the loop is started once the action is scheduled, or (dispose while not running) once dispose returned
+                    ctl.wait_until(lambda: run["scheduled"] and (mode != "notRunning" or run["returned"]))
                     loop.ev(3, "startloop")
                 loop._check_closed()
-                loop._thread_id = threading.get_ident()
-                events._set_running_loop(loop)
+                set_running(True)
                 try:
                     while True:
+                        if run["stop_req"] and not run["stopped"]:
+                            set_running(False)
+                            run["stopped"] = True
+                            loop.ev(5, "stoploop")
+                            ctl.wait_until(lambda: run["returned"])
+                            loop.ev(3, "startloop")
+                            set_running(True)
                         live = [h for h in loop._scheduled if not h._cancelled]
                         if run["user_done"] and not len(loop._ready) and not live:
                             break
                         loop._run_once()
                 finally:
-                    loop._thread_id = None
-                    events._set_running_loop(None)
+                    set_running(False)
+
+            def on_loop(fn):
+                """run fn as a callback on the loop thread (the model attributes its steps to the user)"""
+                def cb():
+                    run["user_call_on_loop"] = True
+                    try:
+                        fn()
+                    finally:
+                        run["user_call_on_loop"] = False
+
+                asyncio.BaseEventLoop.call_soon_threadsafe(loop, cb)
 
             def user_body():
-                if mode != "notRunning":
+                # --- schedule
+                if smode == "pre":
+                    do_sched()
+                else:
                     ctl.wait_until(lambda: loop.is_running())
-                if mode == "onLoop":
-                    # the user's calls run inside loop callbacks
-                    def cb_sched():
-                        run["user_call_on_loop"] = True
-                        try:
-                            do_sched()
-                        finally:
-                            run["user_call_on_loop"] = False
-
-                    def cb_disp():
-                        run["user_call_on_loop"] = True
-                        try:
-                            do_disp()
-                        finally:
-                            run["user_call_on_loop"] = False
-                            run["user_done"] = True
-
-                    def cb_all():
-                        cb_sched()
-                        if gap == 0:
-                            loop.call_soon(cb_disp)
-                        else:
-                            asyncio.BaseEventLoop.call_later(loop, float(gap), cb_disp)
-
-                    asyncio.BaseEventLoop.call_soon_threadsafe(loop, cb_all)
-                    return
-                do_sched()
-                if gap:
-                    sleep_until(ctl.clock + gap)
-                do_disp()
+                    if smode == "onLoop":
+                        on_loop(do_sched)
+                        ctl.wait_until(lambda: run["scheduled"])
+                    else:
+                        do_sched()
+                # --- dispose
+                if mode == "notRunning":
+                    if smode != "pre":
+                        if gap:
+                            sleep_until(ctl.clock + gap)
+                        run["stop_req"] = True
+                        ctl.wait_until(lambda: run["stopped"])
+                    do_disp()
+                else:
+                    ctl.wait_until(lambda: loop.is_running())
+                    if gap:
+                        sleep_until(ctl.clock + gap)
+                    if mode == "onLoop":
+                        on_loop(do_disp)
+                        ctl.wait_until(lambda: run["returned"])
+                    else:
+                        do_disp()
                 run["user_done"] = True
 
             ctl.spawn(loop_body, "loop")
